@@ -52,6 +52,10 @@ var c06ReaderKinds = func() []string {
 	// buffering readers over a source that hands over a few bytes per Read:
 	// the buffer then ends inside frames, headers and length fields
 	for _, v := range c06Chunked {
+		if v.Chunk < 0 {
+			s = append(s, fmt.Sprintf("%s whose last bytes arrive together with io.EOF", v.K))
+			continue
+		}
 		if v.Zero > 0 {
 			s = append(s, fmt.Sprintf("%s over %d-byte segments each preceded by %d idle reads", v.K, v.Chunk, v.Zero))
 			continue
@@ -66,7 +70,7 @@ var c06Chunked = []struct {
 	Chunk int
 	Zero  int // idle (0,nil) reads before every segment
 }{{env.KBufio4096, 1, 0}, {env.KBufio4096, 3, 0}, {env.KBufio4096, 7, 0}, {env.KRich, 2, 0}, {env.KBufio16, 5, 0}, {env.KBufioPrefetched, 4, 0},
-	{env.KRaw, 3, 1}, {env.KRaw, 1, 2}, {env.KLimited, 64, 1}}
+	{env.KRaw, 3, 1}, {env.KRaw, 1, 2}, {env.KLimited, 64, 1}, {env.KRaw, -1, 0}, {env.KBufio16, -1, 0}}
 
 type c06Stream struct {
 	r    io.Reader
@@ -77,7 +81,11 @@ func c06Open(kind int, stream []byte) c06Stream {
 	under := &env.Reader{Data: stream}
 	if n := int(env.NKinds); kind >= n {
 		v := c06Chunked[kind-n]
-		under.Pat = &env.Pattern{Chunk: v.Chunk, ZeroBefore: v.Zero}
+		if v.Chunk < 0 {
+			under.MixEnd = true
+		} else {
+			under.Pat = &env.Pattern{Chunk: v.Chunk, ZeroBefore: v.Zero}
+		}
 		kind = int(v.K)
 	}
 	r := env.Wrap(env.Kind(kind), under)
